@@ -48,6 +48,13 @@ LEVEL_NOTE = ('Bounded grammar: blocks at nesting depth 2 hold one statement, de
 ALLOW = [re.compile(r"^undeclared name not builtin: "),
          re.compile(r"^local variable '.*' referenced before assignment$"),
          re.compile(r"^can not delete variable '.*' referenced in nested scope$")]
+# By-design static-typing deviations (outside the alphabet): Cython infers the C / builtin type of literals, displays and
+# typed builtin results and reports operations on them that are guaranteed to fail at run time.  Only honoured for the
+# expression-slot families, where such an expression was put into a slot on purpose; counted in the evidence.
+BYDESIGN = [re.compile(p) for p in (
+    r"^Attempting to index non-array type ", r"^Calling non-function type ", r"^Cannot assign type '.*' to '.*'",
+    r"^Deletion of non-Python, non-C\+\+ object", r"^async for loops not allowed on C/C\+\+ types",
+    r"^need more than \d+ values? to unpack", r"^too many values to unpack", r"^yielding from non-Python object not supported")]
 CRASH_TEXT = re.compile(r'Compiler crash in|InternalError|Internal compiler error|Traceback \(most recent call last\)|Compiler crash traceback')
 PACK = 240
 CY_TIMEOUT = 60          # CPU seconds (ITIMER_VIRTUAL) for one compiler run: independent of machine load
@@ -232,7 +239,7 @@ def _preparse_ok(text):
         sys.stderr = old
 
 
-def _classify_valid(r):
+def _classify_valid(r, bydesign=False):
     """Result of a CPython-valid program -> (kind, key) or None when acceptable."""
     if r['status'] == 'ok':
         return None
@@ -240,6 +247,8 @@ def _classify_valid(r):
         bad = [m for _, _, m in r['msgs'] if not any(a.search(m) for a in ALLOW)]
         if not bad:
             return ('allow', None)
+        if bydesign and all(any(b.search(m) for b in BYDESIGN) for m in bad):
+            return ('bydesign', None)
         return ('reject', _norm_msg(bad[0]))
     return (r['status'], r['key'])
 
@@ -265,7 +274,7 @@ def run_job(job):
     ch0 = os.times()
     wd = os.path.join(os.environ['VERIF_SCRATCH_DIR'], 'c43', 'j%d' % job['id'])
     os.makedirs(wd, exist_ok=True)
-    out = dict(id=job['id'], n=len(job['items']), preparse_failed=0, valid=0, invalid=0, undecided=0, ok=0, allow=0, rejected_invalid=0, accepted_invalid=0,
+    out = dict(id=job['id'], n=len(job['items']), preparse_failed=0, bydesign=0, valid=0, invalid=0, undecided=0, ok=0, allow=0, rejected_invalid=0, accepted_invalid=0,
                compiles=0, gcc_dedup=0, bad=[], helpers=set(), outcomes=collections.Counter())
     cplus = job.get('cplus', False)
     try:
@@ -296,13 +305,16 @@ def run_job(job):
                 out['helpers'] |= st['helpers']
                 out['outcomes']['valid:ok'] += st['ok']
                 for pid, r in st['bad']:
-                    c = _classify_valid(r)
+                    c = _classify_valid(r, bydesign=job['fam'].startswith('a5'))
                     if c is None:
                         out['ok'] += 1
                         out['outcomes']['valid:ok'] += 1
                     elif c[0] == 'allow':
                         out['allow'] += 1
                         out['outcomes']['valid:allowlisted ' + _norm_msg(r['msgs'][0][2])] += 1
+                    elif c[0] == 'bydesign':
+                        out['bydesign'] += 1
+                        out['outcomes']['valid:by-design static rejection ' + _norm_msg(r['msgs'][0][2])] += 1
                     else:
                         out['bad'].append((pid, c[0], c[1], r.get('text', '')))
             for k, (pid, text, v) in enumerate(other):
@@ -326,9 +338,9 @@ def run_job(job):
         else:
             cache = {}
             for k, (pid, ext, data) in enumerate(job['items']):
-                v = False
-                if ext == '.py':
-                    v = G.cpython_ok(data)
+                # family (c) carries the robustness oracle; acceptance is demanded of the unmodified .py seeds only
+                # (mutants that happen to stay valid Python trip Cython's by-design static checks, e.g. len() without arguments)
+                v = ext == '.py' and job['fam'] == 'c-seed' and G.cpython_ok(data)
                 r = compile_one('f%d_%d' % (job['id'], k), data, ext, wd, cplus=cplus, gcc=job.get('gcc', True), gcc_cache=cache)
                 out['compiles'] += 1
                 if r.get('gcc_dedup'):
@@ -406,7 +418,7 @@ def build_jobs(tier):
         programs.append((fam, tag, ext, data))
         by_fam.setdefault(fam, []).append(pid)
     for fam, pids in by_fam.items():
-        for i in range(0, len(pids), 60):
+        for i in range(0, len(pids), 100):
             # quick: the C-acceptance half of the oracle is applied to the seeds only (gcc costs ~0.6 s per accepted mutant);
             # thorough applies it to every accepted mutant
             new_job(kind='files', fam=fam, items=[(p, programs[p][2], programs[p][3]) for p in pids[i:i + 100]],
@@ -484,7 +496,7 @@ def run(ctx):
             continue
         r = res[1]
         for k in ('n', 'valid', 'invalid', 'undecided', 'ok', 'allow', 'rejected_invalid', 'accepted_invalid', 'compiles', 'gcc_dedup',
-                  'preparse_failed'):
+                  'preparse_failed', 'bydesign'):
             tot[k] += r[k]
             fam_counts[fam + ('-c++' if job['cplus'] else '')][k] += r[k]
         tot['cpu'] += r['cpu']
@@ -516,7 +528,7 @@ def run(ctx):
                 'normalised error-message class, each allowlisted rejection class, each violation key) - programs with the same outcome class collapse',
         'programs': len(programs), 'jobs': len(alljobs), 'compilations': tot['compiles'],
         'cpython_valid': tot['valid'], 'cpython_invalid': tot['invalid'], 'cpython_crashed_on': tot['undecided'],
-        'valid_accepted': tot['ok'], 'allowlist_hits': tot['allow'], 'invalid_rejected_with_position': tot['rejected_invalid'],
+        'valid_accepted': tot['ok'], 'allowlist_hits': tot['allow'], 'by_design_static_rejections': tot['bydesign'], 'invalid_rejected_with_position': tot['rejected_invalid'],
         'invalid_accepted_c_ok': tot['accepted_invalid'], 'gcc_dedup_hits': tot['gcc_dedup'],
         'per_family': {k: dict(v) for k, v in sorted(fam_counts.items())},
         'distinct_outcomes': distinct, 'top_outcomes': dict(outcomes.most_common(40)),
